@@ -32,14 +32,15 @@ VERSION = "8.3.0"
 TYPE_CODES = {"SIDECAR_INVALID", "wrongHedDataType", "sidecarUnknownColumn", "blankValueString"}
 FAULTS = ["hed_leaf_not_string", "hed_entry_not_str_or_map", "value_no_hash", "value_two_hash",
           "categorical_with_hash", "column_named_HED", "key_na", "brace_unbalanced_open", "brace_unbalanced_close",
-          "brace_nested", "ref_missing_column", "ref_non_hed_column", "self_ref", "nested_ref"]
+          "brace_nested", "ref_missing_column", "ref_non_hed_column", "self_ref", "nested_ref", "ref_not_a_column_name"]
 EXPECT = {"hed_leaf_not_string": TYPE_CODES, "hed_entry_not_str_or_map": TYPE_CODES,
           "value_no_hash": {"PLACEHOLDER_INVALID"}, "value_two_hash": {"PLACEHOLDER_INVALID"},
           "categorical_with_hash": {"PLACEHOLDER_INVALID"}, "column_named_HED": {"SIDECAR_INVALID"},
           "key_na": {"SIDECAR_INVALID"}, "brace_unbalanced_open": {"SIDECAR_BRACES_INVALID"},
           "brace_unbalanced_close": {"SIDECAR_BRACES_INVALID"}, "brace_nested": {"SIDECAR_BRACES_INVALID"},
           "ref_missing_column": {"SIDECAR_BRACES_INVALID"}, "ref_non_hed_column": {"SIDECAR_BRACES_INVALID"},
-          "self_ref": {"SIDECAR_BRACES_INVALID"}, "nested_ref": {"SIDECAR_BRACES_INVALID"}}
+          "self_ref": {"SIDECAR_BRACES_INVALID"}, "nested_ref": {"SIDECAR_BRACES_INVALID"},
+          "ref_not_a_column_name": {"SIDECAR_BRACES_INVALID"}}
 
 
 class FormDiffers(Exception):
@@ -222,7 +223,8 @@ def fault_strategy(draw):
               "value_two_hash": bool(val), "categorical_with_hash": bool(cat), "column_named_HED": True,
               "key_na": bool(cat), "brace_unbalanced_open": bool(hedc), "brace_unbalanced_close": bool(hedc),
               "brace_nested": bool(hedc), "ref_missing_column": bool(hedc), "ref_non_hed_column": bool(hedc and ign),
-              "self_ref": bool(hedc), "nested_ref": len(hedc) >= 3 or (len(hedc) >= 2 and bool(refcols))}[f]
+              "self_ref": bool(hedc), "nested_ref": len(hedc) >= 3 or (len(hedc) >= 2 and bool(refcols)),
+              "ref_not_a_column_name": bool(hedc)}[f]
         if ok:
             avail.append(f)
     order = FAULTS[start:] + FAULTS[:start]
@@ -271,6 +273,10 @@ def fault_strategy(draw):
         edit_some_string(pick(hedc), lambda s: s + ", {" + "{" + other + "}}")
     elif fault == "ref_missing_column":
         edit_some_string(pick(hedc), lambda s: s + ", {nosuchcolumn}")
+    elif fault == "ref_not_a_column_name":
+        # balanced braces around something that names no column at all
+        inside = draw(st.sampled_from(["no such", "", " ", "resp ", " resp", "my.col", "a,b", "resp time", "r\u00e9sp"]))
+        edit_some_string(pick(hedc), lambda s: s + ", {" + inside + "}")
     elif fault == "ref_non_hed_column":
         tgt = pick(ign)
         edit_some_string(pick(hedc), lambda s: s + ", {" + tgt + "}")
